@@ -723,7 +723,7 @@ class C07(C.Check):
                 checks.append("false")
             else:
                 checks.append(check_term(L, ops, steps))
-        bad = C.eval_cases(self.prop, "corr", HEADER, checks, shard=60)
+        bad = C.eval_cases(self.prop, "corr", HEADER, checks, shard=150, jobs=6)
         for i in bad[:3]:
             rr = self.runs[i]
             res.add_broken("correspondence", "history vs coq/C07/Model.v",
